@@ -72,6 +72,13 @@ pub struct Cfg {
   /// file backend only: the arena starts at this (page-aligned) offset of the file
   #[serde(default)]
   pub file_offset: u32,
+  /// `Options::with_maximum_retries` (library default 5)
+  #[serde(default = "default_retries")]
+  pub retries: u8,
+}
+
+fn default_retries() -> u8 {
+  5
 }
 
 impl Cfg {
@@ -86,6 +93,7 @@ impl Cfg {
       cap,
       magic: 0,
       file_offset: 0,
+      retries: 5,
     }
   }
 
@@ -99,6 +107,7 @@ impl Cfg {
       .with_maximum_alignment(self.max_align)
       .with_magic_version(self.magic)
       .with_offset(self.file_offset as u64)
+      .with_maximum_retries(self.retries)
   }
 
   /// effective layout (files are always unified)
